@@ -163,7 +163,8 @@ def cli_case(ctx, k):
                 argv = (argv + argv_pair) if rng.random() < 0.5 else (argv_pair + argv)
             ctx.count("cli_runs_with_anchored_adapters_for_the_other_end")
         argv += ["-e", repr(rate), "-O", str(overlap), "-o", "out.fq"] + (["--no-indels"] if rng.random() < 0.3 else [])
-        if rng.random() < 0.3:
+        with_file = rng.random() < 0.3
+        if with_file:
             # an adapter file with its own parameters given first: they hold for the file only
             with open(os.path.join(d, "other.fasta"), "w") as f:
                 f.write(">o1\n" + G.rnd(rng, 12) + "\n>o2\n" + G.rnd(rng, 15) + "\n")
@@ -199,6 +200,10 @@ def cli_case(ctx, k):
                     continue
             if musts.get(name) and len(o) >= len(s):
                 ctx.violation("missed-occurrence", f"read {s!r} {musts[name]} of -a {ad} but nothing was removed; argv={argv}", case, klass="cli-admissible")
+            if with_file:
+                # one of the file's adapters may legitimately be the best match of the single round: only the
+                # "something admissible occurs, so something is removed" clause above is judged in these runs
+                continue
             if mode == "back" and ad in o:
                 ctx.violation("exact-copy-survives", f"exact copy of {ad} remains in the output {o!r} of read {s!r}; argv={argv}", case, klass="cli")
             if mode == "prefix" and s.startswith(ad) and o != s[len(ad):]:
